@@ -25,8 +25,10 @@ Notation "x <- r ;; k" := (bind r (fun x => k)) (at level 61, r at next level, r
 Definition zlen {A} (l : list A) : Z := Z.of_nat (length l).
 
 (* memory read *)
+(* (the index is compared with the length first so that a huge index is never
+   turned into a unary number) *)
 Definition rd (m : list byte) (i : Z) : res byte :=
-  if i <? 0 then Oob else
+  if i <? 0 then Oob else if zlen m <=? i then Oob else
   match nth_error m (Z.to_nat i) with Some b => Ok b | None => Oob end.
 
 (* ---- type tags ----------------------------------------------------------- *)
@@ -223,7 +225,8 @@ Fixpoint find0 (l : list byte) (i : Z) : res Z :=
   match l with [] => Oob | c :: t => if c =? 0 then Ok i else find0 t (i + 1) end.
 Fixpoint findnz (l : list byte) (i : Z) : res Z :=
   match l with [] => Oob | c :: t => if c =? 0 then findnz t (i + 1) else Ok i end.
-Definition from (m : list byte) (i : Z) : list byte := skipn (Z.to_nat i) m.
+Definition from (m : list byte) (i : Z) : list byte :=
+  if zlen m <=? i then [] else skipn (Z.to_nat i) m.
 Definition strz (m : list byte) (i : Z) : res Z := if i <? 0 then Oob else find0 (from m i) i.
 
 (* while( *++msg); while(! *++msg); return msg+1; *)
